@@ -62,7 +62,7 @@ class Lexer(object):
 
     @TOKEN(r'("(\\.|[^"\\])*")|(\'(\\.|[^\'\\])*\')')
     def t_STRING(self, t):
-        t.value = t.value[1:-1].encode().decode("unicode_escape")
+        t.value = t.value[1:-1].encode("latin-1", "backslashreplace").decode("unicode_escape")
         return t
 
     @TOKEN(r"[\r\n]+")
